@@ -26,6 +26,8 @@ func runStream(name string, args []string) {
 		streamQl(o)
 	case "qc":
 		streamQc(o)
+	case "rb":
+		streamRb(o)
 	case "reg":
 		streamReg(o)
 	case "cb":
